@@ -4,7 +4,7 @@ ENGINES = [
     {
         "name": "symx",
         "path": "/verif/symx",
-        "serves_properties": ["C04", "C07", "C08", "C13", "C16", "C17", "C18"],
+        "serves_properties": ["C03", "C04", "C07", "C08", "C13", "C16", "C17", "C18"],
         "kind_free_text": "own symbolic executor: geoh5py's real functions run under CPython with the module-global "
         "`np` (and, for file paths, `h5py`) rebound to z3-backed models; re-execution DFS forks on symbolic "
         "branches; obligations are z3 validity queries; counterexamples are replayed on real numpy/h5py",
@@ -37,6 +37,21 @@ def _symx(section, technique, text, note=_SYMX_NOTE):
 
 
 CLAIMED = {
+    "C03": _symx(
+        "C03",
+        "symbolic execution of the real setters -> Workspace.update_attribute -> H5Writer.update_field/write_* -> (proxy "
+        "over the real HDF5 file) -> fresh Workspace -> H5Reader/getters chain with symbolic attribute values; z3 "
+        "validity of 'value at persist time == live value' and 'value read by a fresh reader == live value'; "
+        "counterexamples replayed on real numpy/h5py",
+        "bounded symbolic model checking per (class, attribute) pair of a typed table (objects, data, groups, types, "
+        "project header): numeric attributes (origin, rotation, dip, counts, cell sizes, delimiters, collar, surveys, "
+        "vertices, cells, octree cells, layers, prisms, values) are assigned symbolic values and z3 proves, for all of "
+        "them, that the last persistence call happens after the value is stored and that a fresh Workspace on the same "
+        "file reads the in-memory value; strings, flags, dictionaries and colour/value maps are concrete (evaluated "
+        "directly). Attribute pairs are assigned in both orders.",
+        _SYMX_NOTE + "; A-H5: symbolic payloads are kept beside the real HDF5 file by a proxy and handed back unchanged; "
+        "seam C: instance-level recording wrapper around Workspace.update_attribute",
+    ),
     "C04": _symx(
         "C04",
         "bounded symbolic execution of the real Concatenator index/data update code from an arbitrary valid layout "
@@ -140,7 +155,6 @@ NOT_APPLICABLE = {
     "C19": "single-fault enumeration over links/attributes of real HDF5 files read by h5py: fault injection, nothing symbolic",
     "C20": "partner linkage is identity bookkeeping in metadata dictionaries persisted as JSON; configurations x "
     "histories over an object graph, no value-level kernel",
-    "C03": _NOT_BUILT,
     "C06": _NOT_BUILT,
     "C14": _NOT_BUILT,
     "C15": _NOT_BUILT,
